@@ -252,6 +252,10 @@ pub fn checksum_text(rng: &mut Rng, well_formed: bool) -> String {
             "sha1:ａｂ",
             "é:0",
             "sha1:00,sha1:00",
+            // Repeated algorithms that are not neighbours in the text.
+            "sha1:aa,md5:cc,SHA1:bb",
+            "a:00,b:11,a:22",
+            "z:00,a:11,Z:22,b:33",
         ]))
         .to_owned()
     }
